@@ -82,6 +82,12 @@ func main() {
 			usage()
 		}
 		os.Exit(replayFile(os.Args[2]))
+	case "bypassgen":
+		fs := flag.NewFlagSet("bypassgen", flag.ExitOnError)
+		prop := fs.String("property", "", "property id")
+		out := fs.String("out", "/tmp/bypass", "output directory (mutants/<property>/bypass.json)")
+		fs.Parse(os.Args[2:])
+		os.Exit(runBypassGen(*prop, *out))
 	case "selftest":
 		fs := flag.NewFlagSet("selftest", flag.ExitOnError)
 		prop := fs.String("property", "", "property id (default: all)")
